@@ -3,7 +3,6 @@ import math
 from typing import Tuple, Union
 
 import numpy as np
-import pandas as pd
 from scipy.special import factorial2
 
 from . import xl, xlerrors, xlcriteria, func_xltypes
@@ -660,8 +659,14 @@ def SUMPRODUCT(
             raise xlerrors.NaExcelError(
                 "Excel Errors are present in the sumproduct items.")
 
-    sumproduct = pd.concat(arrays, axis=1)
-    return sumproduct.prod(axis=1).sum()
+    def number(item):
+        # Text and blank cells count as zero.
+        return item if func_xltypes.Number.is_type(item) else 0
+
+    # The products of the items in the same position of every array, summed.
+    return sum(
+        math.prod(map(number, items))
+        for items in zip(*map(xl.flatten, arrays)))
 
 
 @xl.register()
